@@ -53,7 +53,7 @@ class Mod:
         except SyntaxError as e:
             raise AnalysisError('cannot parse %s: %s' % (rel, e))
         from .canon import canonicalise, normal_form
-        normal_form(self.tree)
+        normal_form(self.tree, root, rel)
         canonicalise(rel, self.tree)
         for parent in ast.walk(self.tree):
             for child in ast.iter_child_nodes(parent):
